@@ -198,6 +198,8 @@ def check(ctx):
             ctx.bad("D8", hs[0], "GramStack.%s: %s" % (meth, p), "transient destination errors are never recognised and raise")
         ctx.check(ok, "T6-dgram", f, "GramStack.%s: transient destination errors => %s, else re-raise" % (meth, "packet deferred, destination blocked for this pass" if retry == "defer" else "no data"),
                   "datagram stacks must treat transient destination errors as retryable rather than fatal")
+    from .c35 import deferred_requeued
+    deferred_requeued(ctx, "T6-dgram")
     ctx.floor("handlers", handlers, 11)
     found = defects.run(ctx.repo, [ctx.cls(m, c).own_method(x) for m, c, _ in STREAM for x in ("receive", "send")] +
                         [G.own_method("_serviceOneTxPkt"), G.own_method("_serviceOneReceived")], ("D8", "D1"))
